@@ -164,31 +164,47 @@ theorem nl_not_mem_strOffset (o : Int) : ¬ '\n' ∈ strOffset o := by
   have hd : isDigit '\n' = false := by decide
   have := fun k n => not_mem_pad k n '\n' hd
   unfold strOffset
-  split <;> simp [this]
+  split <;> split <;> simp [this]
 
-theorem splitOffset_six (body : Line) (sg h1 h2 c m1 m2 : Char)
-    (hn : ¬ '\n' ∈ body ++ [sg, h1, h2, c, m1, m2]) :
-    splitOffset (body ++ [sg, h1, h2, c, m1, m2]) =
+/-- preamble of splitOffset on a text without newline -/
+theorem splitOffset_noNl (s : Line) (hn : ¬ '\n' ∈ s) :
+    splitOffset s = splitOffsetEnd s := by
+  have hc : s.contains '\n' = false := by simpa using hn
+  have hl : (s.getLast? == some '\n') = false := by
+    cases hg : s.getLast? with
+    | none => rfl
+    | some c =>
+      have hm : c ∈ s := List.mem_of_getLast? hg
+      have : c ≠ '\n' := fun e => hn (e ▸ hm)
+      simp [this]
+  simp [splitOffset, hl, hn]
+
+theorem splitOffset6_six (body : Line) (sg h1 h2 c m1 m2 : Char) :
+    splitOffset6 (body ++ [sg, h1, h2, c, m1, m2]) =
       if (sg == '+' || sg == '-') && isDigit h1 && isDigit h2 && c == ':' && isDigit m1 && isDigit m2 &&
          endsWithSeconds body then
-        some (body, if sg == '-' then -((natOfDigits [h1, h2] * 60 + natOfDigits [m1, m2] : Nat) : Int)
-          else ((natOfDigits [h1, h2] * 60 + natOfDigits [m1, m2] : Nat) : Int))
+        some (body, if sg == '-' then -((natOfDigits [h1, h2] * 3600 + natOfDigits [m1, m2] * 60 : Nat) : Int)
+          else ((natOfDigits [h1, h2] * 3600 + natOfDigits [m1, m2] * 60 : Nat) : Int))
       else none := by
-  have hm2 : m2 ≠ '\n' := by
-    intro h; apply hn; simp [h]
-  have hl : (body ++ [sg, h1, h2, c, m1, m2]).getLast? = some m2 := by simp
-  have hc : (body ++ [sg, h1, h2, c, m1, m2]).contains '\n' = false := by
-    simpa using hn
-  have hlen : (body ++ [sg, h1, h2, c, m1, m2]).length - 6 = body.length := by simp
-  have hlt : ¬ (body ++ [sg, h1, h2, c, m1, m2]).length < 6 := by simp
-  have e1 : (if (body ++ [sg, h1, h2, c, m1, m2]).getLast? == some '\n' then (body ++ [sg, h1, h2, c, m1, m2]).dropLast
-      else body ++ [sg, h1, h2, c, m1, m2]) = body ++ [sg, h1, h2, c, m1, m2] := by
-    rw [hl, if_neg]; simpa using hm2
-  have e2 : (body ++ [sg, h1, h2, c, m1, m2]).take body.length = body := List.take_left' rfl
-  have e3 : (body ++ [sg, h1, h2, c, m1, m2]).drop body.length = [sg, h1, h2, c, m1, m2] := List.drop_left' rfl
-  simp only [splitOffset, e1, hc, hlen, e2, e3]
-  simp
-  intro h; omega
+  simp [splitOffset6]
+
+theorem splitOffset9_nine (body : Line) (sg h1 h2 c m1 m2 c2 s1 s2 : Char) :
+    splitOffset9 (body ++ [sg, h1, h2, c, m1, m2, c2, s1, s2]) =
+      if (sg == '+' || sg == '-') && isDigit h1 && isDigit h2 && c == ':' && isDigit m1 && isDigit m2 && c2 == ':' &&
+         isDigit s1 && isDigit s2 && endsWithSeconds body then
+        some (body, if sg == '-' then -((natOfDigits [h1, h2] * 3600 + natOfDigits [m1, m2] * 60 + natOfDigits [s1, s2] : Nat) : Int)
+          else ((natOfDigits [h1, h2] * 3600 + natOfDigits [m1, m2] * 60 + natOfDigits [s1, s2] : Nat) : Int))
+      else none := by
+  simp [splitOffset9]
+
+/-- a text that ends in sign, two digits, colon, two digits has not the longer ending (its sixth character from the end
+    is the sign, not a colon) -/
+theorem splitOffset9_six (body : Line) (sg h1 h2 c m1 m2 : Char) (hs : sg ≠ ':') :
+    splitOffset9 (body ++ [sg, h1, h2, c, m1, m2]) = none := by
+  have hr : (body ++ [sg, h1, h2, c, m1, m2]).reverse = m2 :: m1 :: c :: h2 :: h1 :: sg :: body.reverse := by simp
+  unfold splitOffset9
+  rw [hr]
+  rcases body.reverse with _ | ⟨x, _ | ⟨y, _ | ⟨z, r⟩⟩⟩ <;> simp [hs]
 
 theorem endsWithSeconds_plain (P : Line) (a b : Char) (ha : isDigit a = true) (hb : isDigit b = true) :
     endsWithSeconds (P ++ [':', a, b]) = true := by
@@ -239,43 +255,76 @@ theorem endsWithSeconds_strNaive (t : Naive) : endsWithSeconds (strNaive t) = tr
 theorem splitOffset_strNaive (t : Naive) (h : t.valid = true) : splitOffset (strNaive t) = none := by
   have _ := h  -- the validity is not needed: no `strNaive` text has an offset
   have hn := nl_not_mem_strNaive t
+  rw [splitOffset_noNl _ hn]
+  unfold splitOffsetEnd
   by_cases h0 : t.us = 0
-  · rw [strNaive_zero t h0] at hn ⊢
-    rw [splitOffset_six _ _ _ _ _ _ _ hn]
-    simp
-  · have e : strNaive t = (pad 4 t.y ++ '-' :: (pad 2 t.mo ++ '-' :: (pad 2 t.d ++ ' ' :: (pad 2 t.h ++ ':' ::
+  · -- ... ':' m m ':' s s : as a nine-character ending the sign position holds a digit or a blank; as a six-character one a colon
+    have e : strNaive t = (pad 4 t.y ++ '-' :: (pad 2 t.mo ++ '-' :: (pad 2 t.d ++ [' ', digitChar (t.h / 10)]))) ++
+        [digitChar t.h, ':', digitChar (t.mi / 10), digitChar t.mi, ':', digitChar (t.s / 10), digitChar t.s] := by
+      rw [strNaive_zero t h0]; simp [pad_two]
+    have e6 : strNaive t = (pad 4 t.y ++ '-' :: (pad 2 t.mo ++ '-' :: (pad 2 t.d ++ ' ' :: pad 2 t.h))) ++
+        [':', digitChar (t.mi / 10), digitChar t.mi, ':', digitChar (t.s / 10), digitChar t.s] := strNaive_zero t h0
+    have h9 : splitOffset9 (strNaive t) = none := by
+      have e9 : strNaive t = (pad 4 t.y ++ '-' :: (pad 2 t.mo ++ '-' :: pad 2 t.d)) ++
+          [' ', digitChar (t.h / 10), digitChar t.h, ':', digitChar (t.mi / 10), digitChar t.mi, ':', digitChar (t.s / 10), digitChar t.s] := by
+        rw [e]; simp
+      rw [e9, splitOffset9_nine]; simp
+    rw [h9, e6, splitOffset6_six]; simp
+  · have e6 : strNaive t = (pad 4 t.y ++ '-' :: (pad 2 t.mo ++ '-' :: (pad 2 t.d ++ ' ' :: (pad 2 t.h ++ ':' ::
         (pad 2 t.mi ++ [':', digitChar (t.s / 10), digitChar t.s, '.']))))) ++
         [digitChar (t.us / 10 / 10 / 10 / 10 / 10), digitChar (t.us / 10 / 10 / 10 / 10),
           digitChar (t.us / 10 / 10 / 10), digitChar (t.us / 10 / 10), digitChar (t.us / 10), digitChar t.us] := by
       rw [strNaive_nonzero t h0, pad_six]
       simp
-    rw [e] at hn ⊢
-    rw [splitOffset_six _ _ _ _ _ _ _ hn]
     have hp := digitChar_ne (t.us / 10 / 10 / 10 / 10 / 10) '+' (by decide)
     have hm := digitChar_ne (t.us / 10 / 10 / 10 / 10 / 10) '-' (by decide)
+    have h9 : splitOffset9 (strNaive t) = none := by
+      have e9 : strNaive t = (pad 4 t.y ++ '-' :: (pad 2 t.mo ++ '-' :: (pad 2 t.d ++ ' ' :: (pad 2 t.h ++ ':' ::
+          (pad 2 t.mi ++ [':']))))) ++
+          [digitChar (t.s / 10), digitChar t.s, '.', digitChar (t.us / 10 / 10 / 10 / 10 / 10), digitChar (t.us / 10 / 10 / 10 / 10),
+            digitChar (t.us / 10 / 10 / 10), digitChar (t.us / 10 / 10), digitChar (t.us / 10), digitChar t.us] := by
+        rw [e6]; simp
+      have hp' := digitChar_ne (t.s / 10) '+' (by decide)
+      have hm' := digitChar_ne (t.s / 10) '-' (by decide)
+      rw [e9, splitOffset9_nine]; simp [hp', hm']
+    rw [h9, e6, splitOffset6_six]
     simp [hp, hm]
 
-/-- the text of an aware datetime splits into the naive text and the offset -/
-theorem splitOffset_strAware (t : Naive) (o : Int) (h : t.valid = true) (h1 : -1440 < o) (h2 : o < 1440) :
+/-- the text of an aware datetime splits into the naive text and the offset (in seconds) -/
+theorem splitOffset_strAware (t : Naive) (o : Int) (h : t.valid = true) (h1 : -86400 < o) (h2 : o < 86400) :
     splitOffset (strNaive t ++ strOffset o) = some (strNaive t, o) := by
   have _ := h  -- the validity of the naive part is not needed
   have hn : ¬ '\n' ∈ strNaive t ++ strOffset o := by
     simp [nl_not_mem_strNaive, nl_not_mem_strOffset]
-  have e : strOffset o = [(if o < 0 then '-' else '+'), digitChar (o.natAbs / 60 / 10), digitChar (o.natAbs / 60),
-      ':', digitChar (o.natAbs % 60 / 10), digitChar (o.natAbs % 60)] := by
-    simp [strOffset, pad_two]
-  rw [e] at hn ⊢
-  rw [splitOffset_six _ _ _ _ _ _ _ hn]
-  have n1 : natOfDigits [digitChar (o.natAbs / 60 / 10), digitChar (o.natAbs / 60)] = o.natAbs / 60 := by
-    rw [← pad_two, natOfDigits_pad]; omega
-  have n2 : natOfDigits [digitChar (o.natAbs % 60 / 10), digitChar (o.natAbs % 60)] = o.natAbs % 60 := by
-    rw [← pad_two, natOfDigits_pad]; omega
+  rw [splitOffset_noNl _ hn]
+  unfold splitOffsetEnd
   have hs : ((if o < 0 then '-' else '+') == '+' || (if o < 0 then '-' else '+') == '-') = true := by
     split <;> decide
-  simp only [hs, isDigit_digitChar, endsWithSeconds_strNaive, n1, n2, Bool.and_self, beq_self_eq_true, if_true]
-  by_cases ho : o < 0
-  · simp [ho]; omega
-  · simp [ho]; omega
+  have hsc : (if o < 0 then '-' else '+') ≠ ':' := by split <;> decide
+  have nh : natOfDigits [digitChar (o.natAbs / 3600 / 10), digitChar (o.natAbs / 3600)] = o.natAbs / 3600 := by
+    rw [← pad_two, natOfDigits_pad]; omega
+  have nm : natOfDigits [digitChar (o.natAbs / 60 % 60 / 10), digitChar (o.natAbs / 60 % 60)] = o.natAbs / 60 % 60 := by
+    rw [← pad_two, natOfDigits_pad]; omega
+  have ns : natOfDigits [digitChar (o.natAbs % 60 / 10), digitChar (o.natAbs % 60)] = o.natAbs % 60 := by
+    rw [← pad_two, natOfDigits_pad]; omega
+  by_cases hz : o.natAbs % 60 = 0
+  · have e : strOffset o = [(if o < 0 then '-' else '+'), digitChar (o.natAbs / 3600 / 10), digitChar (o.natAbs / 3600),
+        ':', digitChar (o.natAbs / 60 % 60 / 10), digitChar (o.natAbs / 60 % 60)] := by
+      simp [strOffset, pad_two, hz]
+    rw [e, splitOffset9_six _ _ _ _ _ _ _ hsc, splitOffset6_six]
+    simp only [hs, isDigit_digitChar, endsWithSeconds_strNaive, nh, nm, Bool.and_self, beq_self_eq_true, if_true]
+    by_cases ho : o < 0
+    · simp [ho]; omega
+    · simp [ho]; omega
+  · have e : strOffset o = [(if o < 0 then '-' else '+'), digitChar (o.natAbs / 3600 / 10), digitChar (o.natAbs / 3600),
+        ':', digitChar (o.natAbs / 60 % 60 / 10), digitChar (o.natAbs / 60 % 60), ':', digitChar (o.natAbs % 60 / 10),
+        digitChar (o.natAbs % 60)] := by
+      simp [strOffset, pad_two, hz]
+    rw [e, splitOffset9_nine]
+    simp only [hs, isDigit_digitChar, endsWithSeconds_strNaive, nh, nm, ns, Bool.and_self, beq_self_eq_true, if_true]
+    by_cases ho : o < 0
+    · simp [ho]; omega
+    · simp [ho]; omega
 
 theorem getDate_strDatetime (t : Civil) (h : t.valid = true) : getDate (strDatetime t) = .ok t := by
   obtain ⟨n, off⟩ := t
@@ -284,7 +333,7 @@ theorem getDate_strDatetime (t : Civil) (h : t.valid = true) : getDate (strDatet
     have hv : n.valid = true := by simpa [Civil.valid] using h
     simp [getDate, strDatetime, splitOffset_strNaive n hv, getNaive_strNaive n hv]
   | some o =>
-    have hv : n.valid = true ∧ -1440 < o ∧ o < 1440 := by simpa [Civil.valid] using h
+    have hv : n.valid = true ∧ -86400 < o ∧ o < 86400 := by simpa [Civil.valid] using h
     simp [getDate, strDatetime, splitOffset_strAware n o hv.1 hv.2.1 hv.2.2, getNaiveL_strNaive n hv.1, hv.2.1, hv.2.2]
 
 end TddaVerif.Props.C09.Aux
